@@ -22,11 +22,13 @@ func init() {
 			"forward index form and altitudekey form judged against the reference interleave and the C03/C12 references (pairs as a set over all groups, no pair twice, groups echo the request parameters), " +
 			"backward conversion at the same zooms must return the original IDs and at other zooms the C03 reference; spatial-ID variants on h==v lists. " +
 			"Directed: all 5460 tiles of zooms 1..6 (keys pairwise distinct, fill [0,4^z), decode to the tile). Non-trivial = some x or y non-zero; distinct by (list, zooms).",
-		Assume:     []string{"reference: q = sum xbit_i<<2i | ybit_i<<(2i+1)", "C12 reference (exact rational cover) for the altitudekey form"},
-		N:          func(t string) int64 { return c11Directed + tierN(60_000, 2_500_000)(t) },
-		Floor:      tierN(1000, 10000),
-		Run:        runC11,
-		Exhaustive: func(string) []string { return []string{"all 5460 tiles at horizontal zooms 1..6: key bijection onto [0,4^z) and decode"} },
+		Assume: []string{"reference: q = sum xbit_i<<2i | ybit_i<<(2i+1)", "C12 reference (exact rational cover) for the altitudekey form"},
+		N:      func(t string) int64 { return c11Directed + tierN(60_000, 2_500_000)(t) },
+		Floor:  tierN(1000, 10000),
+		Run:    runC11,
+		Exhaustive: func(string) []string {
+			return []string{"all 5460 tiles at horizontal zooms 1..6: key bijection onto [0,4^z) and decode"}
+		},
 	})
 }
 
@@ -275,7 +277,9 @@ func runC11(c *core.Case) {
 	for p := range got {
 		keys = append(keys, p)
 	}
-	sort.Slice(keys, func(i, j int) bool { return keys[i][0] < keys[j][0] || keys[i][0] == keys[j][0] && keys[i][1] < keys[j][1] })
+	sort.Slice(keys, func(i, j int) bool {
+		return keys[i][0] < keys[j][0] || keys[i][0] == keys[j][0] && keys[i][1] < keys[j][1]
+	})
 	if len(keys) > 300 {
 		keys = keys[:300]
 	}
